@@ -10,7 +10,10 @@ import (
 	"fmt"
 	"log"
 	"os"
+	"runtime"
+	"runtime/pprof"
 	"sort"
+	"strconv"
 	"strings"
 	"time"
 
@@ -183,6 +186,9 @@ func (w *Worker) run() error {
 	job := w.job
 	t0 := time.Now()
 	var err error
+	if job.RepoDir != "" {
+		raceRepoDir = job.RepoDir
+	}
 	w.index, err = BuildIndex(job.RepoDir, extraCorpus())
 	if err != nil {
 		return err
@@ -278,8 +284,26 @@ func (w *Worker) run() error {
 		w.emit(&simapi.RunResult{Done: true, Proc: map[string]any{"ref_entries_computed": w.refTable.computed}})
 		return nil
 	}
-	for _, rc := range todo {
+	var next *int
+	for i, rc := range todo {
 		w.execOne(rc)
+		if hp := os.Getenv("GCSIM_HEAPPROF"); hp != "" && i%100 == 99 {
+			// debugging aid: what a long-lived worker retains
+			runtime.GC()
+			if f, err := os.Create(fmt.Sprintf("%s.%d", hp, i+1)); err == nil {
+				pprof.WriteHeapProfile(f)
+				f.Close()
+			}
+		}
+		// The program under test was written for one analysis per process: every
+		// construction of an embedded rule-group checker imports its packages from source
+		// into one process-wide file set (checkers.InitEmbeddedRules), which only grows.
+		// A worker that has executed hundreds of runs is recycled before that matters.
+		if job.Mode == "runs" && len(job.Indices) == 0 && i+1 < len(todo) && i%8 == 7 && heapOverLimit() {
+			n := todo[i+1].Index
+			next = &n
+			break
+		}
 	}
 	ds, tot := simrt.SiteHits()
 	seen, multi, unctl := simrt.MapSiteTable()
@@ -291,8 +315,24 @@ func (w *Worker) run() error {
 	proc := map[string]any{"load_ms": loadMs, "yield_sites_hit": ds, "yields_total": tot, "corpus_digest": corpusDigest,
 		"map_sites_seen": keysOf(seen), "map_sites_multi": keysOf(multi), "map_sites_uncontrolled": keysOf(unctl),
 		"ref_entries_computed": w.refTable.computed, "race_build": raceEnabled}
-	w.emit(&simapi.RunResult{Done: true, Proc: proc})
+	w.emit(&simapi.RunResult{Done: true, Proc: proc, Next: next})
 	return nil
+}
+
+// heapOverLimit: live heap beyond GCSIM_RECYCLE_MB (default 1000) after a collection.
+func heapOverLimit() bool {
+	limit := uint64(1000)
+	if v, err := strconv.Atoi(os.Getenv("GCSIM_RECYCLE_MB")); err == nil && v > 0 {
+		limit = uint64(v)
+	}
+	var ms runtime.MemStats
+	runtime.ReadMemStats(&ms)
+	if ms.HeapAlloc>>20 <= limit {
+		return false
+	}
+	runtime.GC()
+	runtime.ReadMemStats(&ms)
+	return ms.HeapAlloc>>20 > limit
 }
 
 func keysOf(m map[int]uint32) []int {
